@@ -24,8 +24,10 @@ def run(ctx, res):
         "tandem; R3 start/end receive only character counts; R4 Token literals occur only in tokenizer.rs and tokenize returns (R5: every fresh entry into the start-delimiter state emits a token boundary, Element boundaries only after a completely matched end delimiter) "
         "the adjacent-Text merge of the scanned tokens; R6 non-emptiness in its structural part: a token cut inside the scan is "
         "`&source[a..b]` under guards from which a < b follows, and the token that runs to the end of the source starts at a visited "
-        "position and is built only when the source has a last character.  Decides the consistency and boundary-ness of the two "
-        "offset systems - not contiguity / coverage as arithmetic facts about the fold.")
+        "position and is built only when the source has a last character; R7 one step of the text-merging pass joins a text token to a preceding text token "
+        "(value re-sliced, both ends extended) and appends every other token unchanged, the last token reaches that pass; R8 a piece cut inside the scan is dropped "
+        "only when empty and tokens are only appended.  Decides the consistency and boundary-ness of the two "
+        "offset systems and the shape of the passes - not contiguity / coverage as arithmetic facts about the scan fold.")
     res.trusted += ["char_indices yields char-boundary byte positions in increasing order", "driver fact extraction"]
     spec = load_units_spec(ctx)
     b = P.fn("tokenizer::tokenize")
